@@ -74,6 +74,12 @@ def query (q : Bytes) : Option (List Pair) :=
   | none => none
   | some st => flush q st q.length
 
+/-- `impl Display for Query`: `name=value` joined with `&` (the stored, i.e. decoded, halves as they are) -/
+def display : List Pair → Bytes
+  | [] => []
+  | [p] => p.1 ++ EQ :: p.2
+  | p :: p' :: ps => p.1 ++ EQ :: p.2 ++ AMP :: display (p' :: ps)
+
 /-- `QueryPairIter::ensure_bounds` on a fresh iterator: the range `get_all(name)` walks -/
 def bounds (ps : List Pair) (name : Bytes) : Option QueryIter.It :=
   match indexOf ps name with
